@@ -1,12 +1,10 @@
 package eio
 
 import (
-	"bytes"
 	"time"
 
 	"github.com/karagenc/socket.io-go/engine.io/parser"
 	"github.com/karagenc/socket.io-go/engine.io/transport"
-	"github.com/karagenc/socket.io-go/engine.io/transport/polling"
 )
 
 // C07_swap_server: the server-side transport swap. Old transport = the REAL long-polling transport, new = a recording
@@ -20,56 +18,7 @@ import (
 //verif:visops 100
 //verif:rand concrete
 //verif:sleep gate
-func verifH_C07_swap_server() {
-	cOld := transport.NewCallbacks()
-	old := polling.NewServerTransport(cOld, 0, time.Hour)
-	s := &serverSocket{id: "sid1", transport: old, pongChan: make(chan struct{}, 1), closeChan: make(chan struct{}), onClose: func(string) {}, debug: NewNoopDebugger()}
-	s.setCallbacks(nil)
-	nw := &verifRecServerTransport{name: "websocket"}
-	withPoll := verifAnyBool()
-	rw := &verifRW{}
-	verifThreads(true)
-	verifGo(func() {
-		s.Send(verifNumbered('1'))
-		s.Send(verifNumbered('2'))
-	})
-	verifGo(func() { s.upgradeTo(nw, transport.NewCallbacks()) })
-	if withPoll {
-		verifGo(func() { old.ServeHTTP(rw, verifReq("GET", "EIO=4&transport=polling&sid=sid1")) })
-	}
-	verifWaitQuiescent()
-	var polled []*parser.Packet
-	if len(rw.body) > 0 {
-		ps, err := parser.DecodePayloads(bytes.NewReader(rw.body))
-		verifAssert(err == nil, "the poll response is a valid payload")
-		polled = ps
-	}
-	left := old.QueuedPackets()
-	for _, n := range []byte{'1', '2'} {
-		verifAssert(verifCountNumbered(polled, n)+verifCountNumbered(nw.sent, n) == 1, "every message sent around a transport upgrade is delivered exactly once")
-		verifAssert(verifCountNumbered(left, n) == 0, "no message stays behind in the discarded transport")
-	}
-	if verifCountNumbered(polled, '1')+verifCountNumbered(polled, '2') == 2 {
-		verifAssert(polled[0].Data[1] == '1' || (len(polled) > 1 && polled[0].Type != parser.PacketTypeMessage), "messages on the same route keep their order")
-	}
-	if verifCountNumbered(nw.sent, '1')+verifCountNumbered(nw.sent, '2') == 2 {
-		i1, i2 := -1, -1
-		for i, p := range nw.sent {
-			if verifCountNumbered([]*parser.Packet{p}, '1') == 1 {
-				i1 = i
-			}
-			if verifCountNumbered([]*parser.Packet{p}, '2') == 1 {
-				i2 = i
-			}
-		}
-		verifAssert(i1 < i2, "messages on the same route keep their order")
-	}
-	verifAssert(s.TransportName() == "websocket", "after the swap the socket uses the new transport")
-	s.Send(verifNumbered('3'))
-	verifAssert(verifCountNumbered(nw.sent, '3') == 1, "a message sent after the upgrade travels on the new transport")
-	verifAssert(verifHeldLocks() == 0, "no mutex left held")
-	verifReach("end")
-}
+func verifH_C07_swap_server() { verifSwapServerBody() }
 
 // C07_candidate_server: the server's handling of the candidate transport during an upgrade (the real maybeUpgrade,
 // entered on its WebTransport branch so that the candidate can be a recording transport). What the candidate delivers is
